@@ -18,7 +18,7 @@
 From Coq Require Import String Permutation.
 From PV Require Import Base.Bytes Base.Res Base.PyStr Model.CodecFloat Model.Path Model.LogixPlan Model.LogixWrite.
 From PV Require Import Spec.TargetIface Spec.TargetCore Spec.Project Spec.Expect Spec.TargetLogix.
-From PV Require Import Proofs.PlanP Proofs.TargetLogixP Proofs.WriteBits Proofs.WriteEnc Proofs.WriteMsg Proofs.WritePlan Proofs.WriteCorrect Proofs.WriteFull.
+From PV Require Import Proofs.PlanP Proofs.TargetLogixP Proofs.WriteBits Proofs.WriteEnc Proofs.WriteMsg Proofs.WritePlan Proofs.WriteCorrect Proofs.WriteFull Proofs.WriteBools.
 Open Scope Z_scope.
 
 (* ================================================================ rmw_effect *)
@@ -285,30 +285,64 @@ Theorem C02_frame_holds : C02_frame.
 Proof. split; [exact store_frame|exact value_frame_and_readback]. Qed.
 Print Assumptions C02_frame_holds.
 
+(* BOOL-array aligned ranges `arr[i]{n}` (i, n multiples of 32): whole 32-bit words from DWORD i/32;
+   the statement is Proofs/WriteFull.stmt_bools *)
+Definition C02_bools : Prop := stmt_bools.
+Theorem C02_bools_holds : C02_bools.
+Proof. exact write_correct_bools. Qed.
+Print Assumptions C02_bools_holds.
+
+(* one BOOL-array element `arr[i]`: ONE Read-Modify-Write of DWORD i / 32 naming bit i mod 32; the
+   statement is Proofs/WriteFull.stmt_bool_element *)
+Definition C02_bool_element : Prop := stmt_bool_element.
+Theorem C02_bool_element_holds : C02_bool_element.
+Proof. exact write_correct_bool_element. Qed.
+Print Assumptions C02_bool_element_holds.
+
 (* ================================================================ the property *)
 Definition C02_proved : Prop :=
   C02_rmw_effect /\ C02_encode_value /\ C02_build_once /\ C02_layout /\ C02_fragments /\ C02_applied_once
-  /\ C02_value /\ C02_array /\ C02_string /\ C02_bool /\ C02_bits /\ C02_frame.
+  /\ C02_value /\ C02_array /\ C02_string /\ C02_bool /\ C02_bits /\ C02_bools /\ C02_bool_element /\ C02_frame.
 
-(* full strength: also BOOL-array aligned ranges, single BOOL-array elements and whole structures
-   given as dicts (statements in Proofs/WriteFull.v, each checked there on concrete inputs by
-   computation) *)
-Definition C02_full : Prop := C02_proved /\ stmt_bools /\ stmt_bool_element /\ stmt_struct.
+(* full strength: also whole structures given as dicts, and a one-element slice of a BOOL array
+   `arr[i]{1}` written with a one-item list, whatever the item (statements in Proofs/WriteFull.v) *)
+Definition C02_full : Prop := C02_proved /\ stmt_struct /\ stmt_bool_slice1 (fun _ => false).
 
-(* PARTIAL: what is proved.  Missing from C02_full: [stmt_bools] (needs: 32 booleans per DWORD =
-   Spec bytes_of_bools, and the reference PlBools write on aligned ranges as one put_bytes),
-   [stmt_bool_element] (needs: set_bit on the 32-bit word = set_bit_byte on its byte), [stmt_struct]
-   (needs: StructTag._encode = Spec encode_members_with by induction over template nesting).  Also
-   not composed in Coq: the whole-call theorem over Multiple Service Packet unwrapping (the target's
-   multi_service loop applies the per-service theorems above to each embedded request; C02_applied_once
-   gives the one-packet-per-request part).  All of these are exercised on the implementation by the
-   harness oracle (harness/props/c02.py) on every run. *)
+(* The faithful model FALSIFIES it: write(('bools[1]{1}', [False])).  The request is planned as a bit
+   write and ReadModifyWriteRequestPacket.set_bit tests `if value:` on the LIST: [False] is truthy, the
+   bit is SET and the write is reported successful (reproduced on the implementation: known_findings/C02.jsonl,
+   corpus/C02/09-bool-array-one-element-list.json; repair: proposed_fixes/C02-bool-array-one-element-list.diff). *)
+Theorem C02_full_refuted : ~ C02_full.
+Proof. intros (_ & _ & H). exact (stmt_bool_slice1_refuted H). Qed.
+Print Assumptions C02_full_refuted.
+
+(* the exact excluded class: the single item of the list is False *)
+Definition C02_guard (item : bool) : bool := negb item.
+Theorem C02_guarded : stmt_bool_slice1 C02_guard.
+Proof. exact write_correct_bool_slice1. Qed.
+Print Assumptions C02_guarded.
+
+(* PARTIAL: what is proved besides C02_guarded.  Still missing from C02_full (under the guard):
+   [stmt_struct]: a whole structure given as a dict (StructTag._encode = Spec encode_members_with, by
+     induction over template nesting, with hosts preceding their bit members and REAL members
+     round-tripping through binary64); with it arrays of structures / of strings.  Structures given as
+     bytes are passed through unchanged (C02_encode_value, first clause) and stored by the same Write
+     Tag service as strings (C02_string shows the A0 02 + handle type field and the store).
+   Also not composed in Coq: the whole call through Multiple Service Packet unwrapping (the target's
+   multi_service loop applies the per-service theorems to each embedded request; C02_applied_once gives
+   the one-packet-per-request part), the fragmented transfer end to end (C02_fragments + the
+   svc_write_frag clause of C02_layout give: the segments tile the value, each is stored at its offset,
+   and storing them in order = storing the value), and the request path (C09) / request parsing
+   (C01, C03), which enter as the hypothesis that the target resolves the path to the wire location
+   of the reference place.  All of these are exercised on the implementation by the oracle of
+   harness/props/c02.py on every run. *)
 Theorem C02_partial : C02_proved.
 Proof.
   split; [exact rmw_effect|]. split; [exact C02_encode_value_holds|]. split; [exact C02_build_once_holds|].
   split; [exact C02_layout_holds|]. split; [exact C02_fragments_holds|]. split; [exact applied_once|].
   split; [exact write_correct_value|]. split; [exact write_correct_array|]. split; [exact write_correct_string|].
-  split; [exact write_correct_bool|]. split; [exact write_correct_bits|]. exact C02_frame_holds.
+  split; [exact write_correct_bool|]. split; [exact write_correct_bits|]. split; [exact write_correct_bools|].
+  split; [exact write_correct_bool_element|]. exact C02_frame_holds.
 Qed.
 Print Assumptions C02_partial.
 
